@@ -413,6 +413,43 @@ func c17BadModuli(s *Suite, rng *Rng, it int) {
 		ppp = append(ppp, resp)
 	}
 	check("three-factors/primepowerproduct", 1, n2, ppp)
+	// a stronger cheater for moduli whose prime factors are all 3 mod 4: choose, per prime, the sign that makes the
+	// challenge a square there; the response then squares to e*c for a square root of unity e (accepted only by a
+	// verifier that forgets the sign)
+	{
+		p3 := func() *gbig.Int {
+			for {
+				x := smallPrime(14 + rng.Intn(6))
+				if new(gbig.Int).Mod(x, bi(4)).Int64() == 3 {
+					return x
+				}
+			}
+		}
+		a, b, cc := p3(), p3(), p3()
+		for a.Cmp(b) == 0 || b.Cmp(cc) == 0 || a.Cmp(cc) == 0 {
+			b, cc = p3(), p3()
+		}
+		n := new(gbig.Int).Mul(new(gbig.Int).Mul(a, b), cc)
+		var rs []*gbig.Int
+		for i := 0; i < 80; i++ {
+			x := hashN(1, i, n)
+			var roots []*gbig.Int
+			for _, pr := range []*gbig.Int{a, b, cc} {
+				y := new(gbig.Int).Mod(x, pr)
+				if gabi.VerifLegendreSymbol(y, pr) == -1 {
+					y.Sub(pr, y)
+				}
+				rt, ok := gabi.VerifPrimeSqrt(y, pr)
+				if !ok {
+					rt = bi(1)
+				}
+				roots = append(roots, rt)
+			}
+			r12 := gabi.VerifCrt(roots[0], a, roots[1], b)
+			rs = append(rs, gabi.VerifCrt(r12, new(gbig.Int).Mul(a, b), roots[2], cc))
+		}
+		check("three-factors/primepowerproduct-sign-cheater", 1, n, rs)
+	}
 	// a prime power N = p^2 and a prime N = p: disjoint prime product proof
 	n3 := new(gbig.Int).Mul(p, p)
 	phi3 := new(gbig.Int).Mul(p, pm1(p))
@@ -622,6 +659,9 @@ func c17Components(s *Suite, rng *Rng, thorough bool) {
 			b := rng.Below(m)
 			e := rng.Bits(int(bl))
 			r := new(gbig.Int).Exp(b, e, m)
+			if r.Cmp(new(gbig.Int).Sub(m, bi(1))) == 0 {
+				r = bi(-1) // the exponentiation proof represents the residue m-1 as -1 (exp.go:262, primeproof.go:222)
+			}
 			names := []string{"b", "e", "m", "r"}
 			for i, v := range []*gbig.Int{b, e, m, r} {
 				env.Add(names[i], v)
